@@ -118,13 +118,21 @@ def rule_FR1(ctx, rep):
         raise AnalysisError('FR1: frame loop guard not a comparison of len(buffer) with an integer')
     # len_packet = size + hs
     lps = [s for s in iter_nodes(lp) if isinstance(s, ast.Assign) and mentions_name(s.value, sizev) and isinstance(s.value, ast.BinOp)]
-    if not lps:
-        raise AnalysisError('FR1: packet length computation not found')
-    lin = to_lin(lps[0].value, opaque=False)
-    if lin is not None and lin == Lin.sym(sizev) + hs:
-        rep.ok('FR1', rcv, lps[0], f'packet length = payload size + header size ({hs})')
+    if lps:
+        site, expr = lps[0], lps[0].value
     else:
-        rep.bad('FR1', rcv, lps[0], f'packet length is {norm(lps[0].value)}, expected {sizev} + {hs}')
+        # no named packet length: the number of bytes a frame removes from the buffer is written out in `del buf[:E]`
+        dels = [(s, t.slice.upper) for s in iter_nodes(lp) if isinstance(s, ast.Delete) for t in s.targets
+                if isinstance(t, ast.Subscript) and isinstance(t.slice, ast.Slice) and t.slice.lower is None and t.slice.upper is not None
+                and mentions_name(t.slice.upper, sizev)]
+        if not dels:
+            raise AnalysisError('FR1: packet length computation not found')
+        site, expr = dels[0]
+    lin = to_lin(expr, opaque=False)
+    if lin is not None and lin == Lin.sym(sizev) + hs:
+        rep.ok('FR1', rcv, site, f'packet length = payload size + header size ({hs})')
+    else:
+        rep.bad('FR1', rcv, site, f'packet length is {norm(expr)}, expected {sizev} + {hs}')
     # payload read: width == size var, offset == hs
     pay = f['pay']
     if isinstance(pay, ast.Subscript):
@@ -500,10 +508,21 @@ def rule_FR5(ctx, rep):
     # early exits inside the loop (a bare return is as good as break when the local buffer name is
     # an alias of the persistent buffer, so that nothing is lost by skipping the store-back)
     bufalias0 = any(isinstance(s, ast.Assign) and norm(s.value) == 'self.bytes' for s in iter_nodes(rcv.node))
-    lpv = None
-    for s in lp.body:
-        if isinstance(s, ast.Assign) and isinstance(s.value, ast.BinOp) and isinstance(s.targets[0], ast.Name):
-            lpv = s.targets[0].id
+    # the frame length, as a linear form over the header fields: what one iteration removes from the buffer (`del buf[:E]`),
+    # whether E is a named temporary or written out
+    env = {}
+    for s in iter_nodes(lp):
+        if isinstance(s, ast.Assign) and len(s.targets) == 1 and isinstance(s.targets[0], ast.Name):
+            v_ = to_lin(s.value, env, opaque=False)
+            if v_ is not None:
+                env[s.targets[0].id] = v_
+    dels = [s for s in iter_nodes(lp) if isinstance(s, ast.Delete)]
+    frame = None
+    if len(dels) == 1 and isinstance(dels[0].targets[0], ast.Subscript) and isinstance(dels[0].targets[0].slice, ast.Slice) \
+            and dels[0].targets[0].slice.lower is None and dels[0].targets[0].slice.upper is not None:
+        frame = to_lin(dels[0].targets[0].slice.upper, env, opaque=False)
+        if frame is not None and not frame.t:
+            frame = None        # a constant: not a frame length
     exits = [s for s in iter_nodes(lp) if isinstance(s, (ast.Break, ast.Return, ast.Continue))]
     for e in exits:
         ifs = enclosing_ifs(e, pm, stop=lp)
@@ -511,7 +530,7 @@ def rule_FR5(ctx, rep):
         if len(ifs) == 1 and ifs[0][1] == 'body':
             t = ifs[0][0].test
             lg2 = _len_guard(t, {'data', 'self.bytes'})
-            if lg2 is not None and lg2[0] is ast.Lt and lpv and norm(lg2[1]) == lpv:
+            if lg2 is not None and lg2[0] is ast.Lt and frame is not None and to_lin(lg2[1], env, opaque=False) == frame:
                 good = True
         if good and (isinstance(e, ast.Break) or (isinstance(e, ast.Return) and e.value is None and bufalias0)):
             rep.ok('FR5', rcv, ifs[0][0].test, 'the loop is left only when fewer bytes than one complete frame are buffered')
@@ -519,9 +538,7 @@ def rule_FR5(ctx, rep):
             rep.bad('FR5', rcv, e, f'the frame loop is left by `{norm(e)}` on a condition other than "fewer bytes than the frame length": '
                     'complete frames can stay undelivered (or the rest of the chunk is dropped)')
     # consumption inside the loop equals the frame length
-    dels = [s for s in iter_nodes(lp) if isinstance(s, ast.Delete)]
-    if len(dels) == 1 and lpv and isinstance(dels[0].targets[0], ast.Subscript) and isinstance(dels[0].targets[0].slice, ast.Slice) \
-            and dels[0].targets[0].slice.lower is None and norm(dels[0].targets[0].slice.upper) == lpv:
+    if frame is not None:
         rep.ok('FR5', rcv, dels[0], 'exactly one frame is consumed per iteration')
     else:
         rep.bad('FR5', rcv, dels[0] if dels else lp.test, 'a loop iteration does not consume exactly the frame it delivered '
